@@ -122,10 +122,11 @@ def _to_unit(cx, cy, a, b, theta):
     return ux, uy
 
 
-def exact_fractions(box, xc, yc, a, b=None, theta=0.0):
+def exact_fractions_full(box, xc, yc, a, b=None, theta=0.0):
     """Fraction of every pixel of box=(ixmin, ixmax, iymin, iymax) covered by
     the circle of radius a (b is None) or the ellipse (a, b, theta) centred on
-    (xc, yc).  Returns (frac[ny, nx], state[ny, nx])."""
+    (xc, yc).  Returns (frac[ny, nx], state[ny, nx]).  Every pixel goes through
+    the edge algorithm."""
     ixmin, ixmax, iymin, iymax = box
     ny, nx = iymax - iymin, ixmax - ixmin
     cx, cy = _pixel_corners(ixmin, ixmax, iymin, iymax, xc, yc)
@@ -141,6 +142,56 @@ def exact_fractions(box, xc, yc, a, b=None, theta=0.0):
     return frac.reshape(ny, nx), state.reshape(ny, nx)
 
 
+def exact_fractions(box, xc, yc, a, b=None, theta=0.0):
+    """Same result as exact_fractions_full, but pixels that are certainly inside
+    or outside are classified first by a rigorous bound (distance of the pixel
+    centre in the unit-disk frame -/+ the circum-radius of the pixel's image),
+    only the remaining band goes through the edge algorithm."""
+    ixmin, ixmax, iymin, iymax = box
+    ny, nx = iymax - iymin, ixmax - ixmin
+    if nx * ny < 400:
+        return exact_fractions_full(box, xc, yc, a, b, theta)
+    ix = np.arange(ixmin, ixmax, dtype=float) - xc
+    iy = np.arange(iymin, iymax, dtype=float) - yc
+    X, Y = np.meshgrid(ix, iy)
+    if b is None:
+        ux, uy = X / a, Y / a
+        rho = HALF_DIAG / a
+        scale = a * a
+    else:
+        ux, uy = _to_unit(X, Y, a, b, theta)
+        h1 = _to_unit(np.array([0.5]), np.array([0.5]), a, b, theta)
+        h2 = _to_unit(np.array([0.5]), np.array([-0.5]), a, b, theta)
+        rho = max(math.hypot(float(h1[0][0]), float(h1[1][0])), math.hypot(float(h2[0][0]), float(h2[1][0])))
+        scale = a * b
+    rho *= (1 + 1e-12)
+    d = np.hypot(ux, uy)
+    inside = d + rho <= 1.0 - 1e-12
+    outside = d - rho >= 1.0 + 1e-12
+    frac = np.zeros((ny, nx))
+    state = np.zeros((ny, nx), int)
+    frac[inside] = 1.0
+    state[inside] = 1
+    state[outside] = -1
+    jj, ii = np.nonzero(~inside & ~outside)
+    if len(jj):
+        x0 = (ii + ixmin - 0.5) - xc
+        x1 = (ii + ixmin + 0.5) - xc
+        y0 = (jj + iymin - 0.5) - yc
+        y1 = (jj + iymin + 0.5) - yc
+        cx = np.stack([x0, x1, x1, x0], axis=1)
+        cy = np.stack([y0, y0, y1, y1], axis=1)
+        if b is None:
+            vx, vy = cx / a, cy / a
+        else:
+            vx, vy = _to_unit(cx, cy, a, b, theta)
+        area, st = poly_disk_area(vx, vy)
+        fr = np.where(st == 1, 1.0, area * scale)
+        frac[jj, ii] = fr
+        state[jj, ii] = st
+    return frac, state
+
+
 # ----------------------------------------------------------------------
 # rectangles: exact overlap by shapely, separating-axis classification
 # ----------------------------------------------------------------------
@@ -154,15 +205,22 @@ def rect_corners(w, h, theta):
 
 
 def rect_exact_fractions(box, xc, yc, w, h, theta):
+    """True fraction of every pixel covered by the rotated rectangle (shapely for
+    the pixels that the separating-axis test cannot decide)."""
     import shapely
     ixmin, ixmax, iymin, iymax = box
     ny, nx = iymax - iymin, ixmax - ixmin
-    ix = np.arange(ixmin, ixmax, dtype=float)
-    iy = np.arange(iymin, iymax, dtype=float)
-    X, Y = np.meshgrid(ix - xc, iy - yc)
-    boxes = shapely.box(X.ravel() - 0.5, Y.ravel() - 0.5, X.ravel() + 0.5, Y.ravel() + 0.5)
-    rect = shapely.Polygon(rect_corners(w, h, theta))
-    return shapely.area(shapely.intersection(boxes, rect)).reshape(ny, nx)
+    st = rect_state(box, xc, yc, w, h, theta, 1e-12)
+    out = np.zeros((ny, nx))
+    out[st == 1] = 1.0
+    jj, ii = np.nonzero(st == 0)
+    if len(jj):
+        X = (ii + ixmin).astype(float) - xc
+        Y = (jj + iymin).astype(float) - yc
+        boxes = shapely.box(X - 0.5, Y - 0.5, X + 0.5, Y + 0.5)
+        rect = shapely.Polygon(rect_corners(w, h, theta))
+        out[jj, ii] = shapely.area(shapely.intersection(boxes, rect))
+    return out
 
 
 def rect_state(box, xc, yc, w, h, theta, eps):
@@ -430,6 +488,21 @@ def selftest():
         fc, _ = exact_fractions(box, xc, yc, a)
         fe, _ = exact_fractions(box, xc, yc, a, a, th)
         assert np.abs(fc - fe).max() < 1e-12
+    # 3b. pre-classified evaluation == full evaluation
+    for _ in range(6):
+        a = float(rng.uniform(8.0, 40.0))
+        b = float(a * rng.uniform(0.03, 1.0))
+        th = float(rng.uniform(-math.pi, math.pi))
+        xc, yc = rng.uniform(-0.5, 0.5, 2)
+        ex, ey = extents('ellipse', dict(a=a, b=b, theta=th))
+        box = _covering_box(xc, yc, ex, ey)
+        f1, s1 = exact_fractions(box, xc, yc, a, b, th)
+        f2, s2 = exact_fractions_full(box, xc, yc, a, b, th)
+        assert np.abs(f1 - f2).max() < 1e-15, 'pre-classified path differs from the full evaluation'
+        assert np.all(f2[s1 == 1] == 1.0) and np.all(f2[s1 == -1] == 0.0)
+        f1, s1 = exact_fractions(box, xc, yc, a)
+        f2, s2 = exact_fractions_full(box, xc, yc, a)
+        assert np.abs(f1 - f2).max() < 1e-15 and np.all(f2[s1 == -1] == 0.0) and np.all(f2[s1 == 1] == 1.0)
     # 4. rectangle: shapely exact vs the sampling bound; SAT classification
     for _ in range(10):
         w, h = rng.uniform(0.2, 6.0, 2)
